@@ -19,13 +19,26 @@ func main() {
 	var c struct {
 		W  *ops.WOp `json:"write"`
 		Op *ops.WOp `json:"op"`
+		Tx bool     `json:"explicit_tx"`
 	}
 	json.Unmarshal(rp.Case, &c)
 	w := c.W
 	if w == nil {
 		w = c.Op
 	}
-	sr, err := ops.RunSingle(env.Options{}, nil, nil, func(e *env.Env) ops.Result { return w.Exec(e.DB) })
+	sr, err := ops.RunSingle(env.Options{}, nil, nil, func(e *env.Env) ops.Result {
+		if c.Tx {
+			tx := e.DB.Begin()
+			r := w.Exec(tx)
+			if r.Err == nil {
+				tx.Commit()
+			} else {
+				tx.Rollback()
+			}
+			return r
+		}
+		return w.Exec(e.DB)
+	})
 	if err != nil {
 		panic(err)
 	}
